@@ -848,7 +848,7 @@ func c07Eligible(n *c07Node, t schedulingv1alpha1.DeviceType, per corev1.Resourc
 func TestVerifC07Ledger(t *testing.T) {
 	pl := c07Plugin(t)
 	ctx := context.TODO()
-	kit.Run(t, kit.Config{Property: "C07", Unit: "ledger", Quick: 4000, Thorough: 120000,
+	kit.Run(t, kit.Config{Property: "C07", Unit: "ledger", Quick: 3000, Thorough: 100000,
 		Rule: "histories of 60-200 operations over 3-8 pod names on 1-2 nodes of a real nodeDeviceCache: inventory events (Device add/update/delete: unhealthy, zero, missing minors/types, changed totals), allocate+commit through Plugin.PreFilter+Reserve or AutopilotAllocator.Allocate+updateCacheUsed, Unreserve / forget / terminated / delete, duplicate and stale pod events, ghost pods; GPU (whole, fractional by percent or bytes, N shares, multi), RDMA, FPGA, combined and constrained (topology scope, VF, joint, ApplyForAll) requests; ledger oracle on every node after every operation; distinct = (request class, path, outcome, eligible-vs-wanted class, live pods, inventory class) and (event kind, pod state); non-trivial = case with a granted and a refused allocation and an inventory change while pods held devices"},
 		func(c *kit.Case) {
 			r := c.R
